@@ -20,13 +20,21 @@ def _bounds(tier, seed):
     extra = 4 if tier == "quick" else 16
     # VERIF_SEED swaps the last `extra` seeds of the range for a block of its own, so a run always uses exactly k interpreters (one per core in the quick tier)
     seeds = list(range(k)) if not seed else list(range(k - extra)) + [seed * k + i for i in range(extra)]
-    return dict(seeds=seeds, depth=1 if tier == "quick" else 2)
+    # histories and hash seeds are nearly orthogonal: the first `deep` seeds explore the full history tree, the others one level less
+    return dict(seeds=seeds, depth=1 if tier == "quick" else 2, deep=4 if tier == "quick" else 8)
 
 
 def cases(tier, seed):
+    from mc import c10_ops
+
     b = _bounds(tier, seed)
-    for s in b["seeds"]:
-        yield dict(seed=s, depth=b["depth"])
+    for i, s in enumerate(b["seeds"]):
+        depth = b["depth"] if i < b["deep"] else b["depth"] - 1
+        if depth == 0:
+            yield dict(seed=s, depth=0)
+        else:
+            for op in c10_ops.OPS:  # one child interpreter per (seed, first operation): the tree below that operation
+                yield dict(seed=s, depth=depth, first=op)
 
 
 def child(seed, args, timeout=3600):
@@ -67,7 +75,7 @@ def run(case):
             elif out["digest"] != base:
                 viol.append(dict(sig=dict(check="determinism", op=op, varies_with="history", after=hist[-1], history_len=len(hist)), expected=base, observed=out["digest"], detail=out["text"]))
         return dict(outcome="replay", transitions=len(case["path"]), violations=viol)
-    out = child(case["seed"], [str(case["depth"])])
+    out = child(case["seed"], [str(case["depth"])] + ([case["first"]] if case.get("first") else []))
     recs = out["records"]
     by = {(tuple(r["history"]), r["op"]): r["digest"] for r in recs}
     viol, seen = [], set()
@@ -80,6 +88,11 @@ def run(case):
                     viol.append(dict(sig=sig, expected="digest %s (seed 0)" % ref[op], observed="digest %s (seed %s)" % (g, case["seed"]), case=dict(seed=case["seed"], path=[op])))
         else:
             base = by.get(((), op))
+            if base is None and g != ref[op]:
+                # this child explored only the tree below its first operation: get this seed's own empty-history digest of `op`
+                base = child(case["seed"], ["path", json.dumps([op])])["digest"]
+            if base is None:
+                base = ref[op]
             if g != base:
                 sig = dict(check="determinism", op=op, varies_with="history", after=hist[-1], history_len=len(hist))
                 if json.dumps(sig) not in seen:
@@ -107,9 +120,9 @@ def describe(tier):
     return dict(
         rule="operations: {n} concrete calls (parsers on partially/permutedly documented signatures, emitters, import inference, gen, doctrans, "
         "sync, module-state touching calls); for each PYTHONHASHSEED in 0..{k} (+ a VERIF_SEED block) a fresh interpreter explores every call "
-        "history of length <= {d} as a fork tree and records the digest of every operation's output; a case = (seed, history, operation); "
-        "reference = seed 0, empty history".format(n=len(c10_ops.OPS), k=len(b["seeds"]) - 1, d=b["depth"]),
-        bounds=dict(operations=list(c10_ops.OPS), seeds=len(b["seeds"]), history_depth=b["depth"]),
+        "history of length <= {d} (the first {deep} seeds; the others one level less) as a fork tree and records the digest of every operation's output; a case = (seed, history, operation); "
+        "reference = seed 0, empty history".format(n=len(c10_ops.OPS), k=len(b["seeds"]) - 1, d=b["depth"], deep=b["deep"]),
+        bounds=dict(operations=list(c10_ops.OPS), seeds=len(b["seeds"]), history_depth=b["depth"], seeds_at_full_depth=b["deep"]),
         exhaustive=True,
         explanation="distinct_iteration_orders_observed reports how many different iteration orders of 3-element probe sets the explored seeds actually produced (3! = 6 possible)",
         assumptions=["hash seeds are sampled (0..K-1 plus a VERIF_SEED block); the number of distinct set orders they induce is measured, not assumed",
